@@ -28,6 +28,25 @@ impl Rng {
   pub fn pick<'a, T>(&mut self, v: &'a [T]) -> &'a T { &v[self.below(v.len() as u64) as usize] }
 }
 
+/// An out-of-range cell number (>= `nh`, the number of cells): just above the range, far above it, a valid-looking number
+/// with one or several high bits set (what a truncating cast to u8 / u32 or a bit mask would drop), or near u64::MAX.
+/// `unit` is the number of cells of a base cell (4^depth), 1 if not applicable.
+pub fn bad_cell_number(rng: &mut Rng, nh: u64, unit: u64) -> u64 {
+  let valid = rng.below(nh);
+  let lead = 64 - nh.leading_zeros() as u64;            // number of bits of nh
+  let h = match rng.below(8) {
+    0 => nh.saturating_add(rng.below(1000)),
+    1 => nh.saturating_mul(1 + rng.below(30)).saturating_add(rng.below(nh)),
+    2 => { let k = lead + rng.below(64 - lead.min(63)); valid | (1u64 << k.min(63)) }               // one high bit over a valid number
+    3 => unit.saturating_mul(256 * (1 + rng.below(8)) + rng.below(12)).saturating_add(rng.below(unit)),     // base-cell part wraps in a u8
+    4 => valid.saturating_add((1 + rng.below(1 << 20)) << 32),                                               // dropped by a u32 cast
+    5 => u64::MAX - rng.below(1000),
+    6 => (1u64 << 63) | valid,
+    _ => nh.saturating_add(rng.below(3) * rng.below(1 << 20)),
+  };
+  if h < nh { nh } else { h }
+}
+
 /// Run `f`, turning a panic into `None` (a panic of the code under test is data, not a crash).
 pub fn guarded<T, F: FnOnce() -> T>(f: F) -> Option<T> {
   catch_unwind(AssertUnwindSafe(f)).ok()
